@@ -59,6 +59,13 @@ def jobs(tier):
                            functions=["vnaproperty_quote_key", "scan"],
                            bound="key bytes %s (one representative per character class of the scanner)" % (c,),
                            timeout=300))
+    for c in ((0, 1, 2, 3, 4, 6) if tier == "quick" else range(7)):     # case 5 (list creation through the parser) needs > 200 s
+        J.append(V.Job("descriptor.case%d" % c, H, "h_descriptor", [], defines=["-DH_DESCRIPTOR", "-DDESC_CASE=%d" % c],
+                       unwind=12, shim=False, kind="bounded", canary=(c == 0),
+                       functions=["vnaproperty_vset", "vnaproperty_vget", "vnaproperty_vget_subtree", "vnaproperty_vdelete",
+                                  "vnaproperty_vcount", "vnaproperty_vtype", "parse", "parse_and_descend", "scan", "parser_free"],
+                       bound="concrete descriptor history, case %d of harness/c13.c h_descriptor (set foo=bar, then one well-formed or malformed descriptor)" % c,
+                       timeout=(200 if tier == "quick" else 1500)))
     if tier != "quick":   # every one-byte key (a fully symbolic byte runs the SAT back end out of memory: DESIGN 8.5)
         have = {j.name for j in J}
         for b in range(1, 256):
